@@ -283,7 +283,7 @@ pub fn report() {
     let case = j.get("case").cloned().unwrap_or(serde_json::Value::Null);
     run.violation_n(key, what, json!({"engine":"c02","case":case.clone()}), count);
   }
-  let compositions = check_compositions(&run);
+  let compositions = check_compositions(&run) + check_exponent_compositions(&run);
   run.set("composition_cases", json!(compositions));
   let g = |k: &str| summary.get(k).cloned().unwrap_or(json!(0));
   if summary.is_null() {
@@ -320,8 +320,67 @@ fn binary_text(op: &str) -> &'static str {
     "+" => "a + b",
     "-" => "a - b",
     "*" => "a * b",
+    "**" => "a ** b",
     _ => "a / b",
   }
+}
+
+/// The same for expressions of two operations of which at least one is `**`, written with parentheses (and `a ** b ** c`,
+/// which this parser groups to the left), over a small operand set with negative bases and fractional exponents: a power
+/// of a power is two roundings and loses the sign of a negative base under an even inner exponent, `a ** (b * c)` does not.
+fn check_exponent_compositions(run: &Run) -> u64 {
+  let ops = ["+", "-", "*", "/", "**"];
+  let operands: Vec<(String, FeelNumber)> = ["-8", "-2", "-0.5", "0", "0.5", "2", "3", "10"].iter().filter_map(|t| t.parse::<FeelNumber>().ok().map(|n| (t.to_string(), n))).collect();
+  let count = std::sync::atomic::AtomicU64::new(0);
+  let pairs: Vec<(usize, usize)> = (0..5).flat_map(|i| (0..5).map(move |j| (i, j))).filter(|(i, j)| *i == 4 || *j == 4).collect();
+  pairs.par_iter().for_each(|(i, j)| {
+    let (op1, op2) = (ops[*i], ops[*j]);
+    let mut shapes: Vec<(String, bool)> = vec![(format!("(a {} b) {} c", op1, op2), true), (format!("a {} (b {} c)", op1, op2), false)];
+    if op1 == "**" && op2 == "**" {
+      shapes.push(("a ** b ** c".to_string(), true));
+    }
+    let names: BTreeSet<String> = ["a", "b", "c"].iter().map(|s| s.to_string()).collect();
+    let ps = crate::rval::parse_scope_of(&names);
+    let e1 = prep(binary_text(op1));
+    let e2 = prep(binary_text(op2));
+    for (text, left) in &shapes {
+      let compound = dmntk_feel_evaluator::prepare(&dmntk_feel_parser::parse_expression(&ps, text, false).unwrap()).unwrap();
+      for (ta, a) in &operands {
+        for (tb, b) in &operands {
+          for (tc, c) in &operands {
+            count.fetch_add(1, std::sync::atomic::Ordering::Relaxed);
+            let mut ctx = FeelContext::default();
+            ctx.set_entry(&Name::from("a"), Value::Number(*a));
+            ctx.set_entry(&Name::from("b"), Value::Number(*b));
+            ctx.set_entry(&Name::from("c"), Value::Number(*c));
+            let observed = val(&compound(&Scope::from(ctx)));
+            let step = |e: &Evaluator, x: &Value, y: &Value| -> Value {
+              match (x, y) {
+                (Value::Number(x), Value::Number(y)) => e(&scope2(x, Some(y))),
+                _ => Value::Null(None),
+              }
+            };
+            let expected = if *left {
+              let first = step(&e1, &Value::Number(*a), &Value::Number(*b));
+              step(&e2, &first, &Value::Number(*c))
+            } else {
+              let inner = step(&e2, &Value::Number(*b), &Value::Number(*c));
+              step(&e1, &Value::Number(*a), &inner)
+            };
+            let expected = val(&expected);
+            if observed != expected {
+              run.violation(
+                &format!("composition:`{}`", text),
+                &format!("`{}` with a = {}, b = {}, c = {} evaluates to {} but the two operations one after the other give {}", text, ta, tb, tc, observed, expected),
+                json!({"engine":"c02","case":{"level":"composition","text":text,"a":ta,"b":tb,"c":tc,"expected":expected,"observed":observed}}),
+              );
+            }
+          }
+        }
+      }
+    }
+  });
+  count.load(std::sync::atomic::Ordering::Relaxed)
 }
 
 /// The result of an expression of two operations is the second operation applied to the (rounded) result of the first: every
